@@ -413,7 +413,14 @@ class FileStore(Store):
         metadata["fileinfo"]["filesystem_path"] = str(self.path_for_key(key).resolve())
         return Metadata(metadata).as_dict()
 
+    def check_key(self, key, with_metadata=False):
+        """Keys must stay inside the store directory (and the root directory has no metadata file)."""
+        parts = [x for x in (key or "").split("/") if x not in ("", ".")]
+        if (key or "").startswith("/") or ".." in parts or (with_metadata and not parts):
+            raise KeyNotSupportedStoreException(key=key, store=self)
+
     def path_for_key(self, key):
+        self.check_key(key)
         if key in (None, ""):
             return self.path
         p = self.path / key
@@ -421,6 +428,7 @@ class FileStore(Store):
         return p
 
     def metadata_path_for_key(self, key):
+        self.check_key(key, with_metadata=True)
         p = self.path / key
         assert p.name != self.METADATA
         return p.parent / self.METADATA / (p.name + ".json")
